@@ -96,6 +96,11 @@ def check(ctx):
                    site, f"constant answer(s) {consts} are produced only after the publication call")
             # `match publication { Some(len) => { ..; true }, None => false }`: true on the success edge, false on the failure edge; no outcome test = infallible: true
             sws = [p_ for p_ in C01.pub_switches(body, dg) if p_["role"] != "is_full"]
+            for x_ in sorted(body.reachable):
+                vs_ = util.variant_switch(body, dg, x_)
+                if vs_ and not vs_[4] and body.locals[vs_[3]]["ty"].startswith("std::option::Option") and C01._mentions(vs_[0], lambda z: z[0] == "call" and z[1].split("::")[-1] in PUBLISH) \
+                   and not any(p_["b"] == x_ for p_ in sws):
+                    sws.append({"b": x_, "success": vs_[1].get(1, vs_[2]), "failure": vs_[1].get(0, vs_[2]), "role": "publish"})
             if sws:
                 ok7 = all(util.returned_values(body, dg, p_["success"]) == {("const", 1)} and util.returned_values(body, dg, p_["failure"]) <= {("const", 0)} for p_ in sws)
                 ctx.ob("R08.7", f"{k}|true-when-published", ok7, site, "true on the publication's success edge, false on its failure edge")
